@@ -542,6 +542,11 @@ func RunC13(c *Ctx, r *Report) {
 		return
 	}
 	r.Func(c.FuncName(fn))
+	// an unsupported payload with an empty body is a payload too: the walker's test of the remaining length lets a
+	// bare 4-octet generic header pass, at the end of the chain as anywhere else
+	if w := c.slotWorld(r, prefix); w != nil {
+		w.lengthGuardRuleIn(r, prefix+"decode.length-guards", fn, 1)
+	}
 	cases, _ := c.bijectionRule(r, prefix+"dispatch-bijection", fn, "message", "IKEPayload", "Type", 16)
 	if cases == nil {
 		return
